@@ -164,6 +164,20 @@ Theorem grid_form_matches_graph_form_bounded : forall st h w l en stg stx,
 Proof. exact NotAdjCompose.grid_form_matches_graph_form_bounded. Qed.
 Print Assumptions grid_form_matches_graph_form_bounded.
 
+(* well-formed input raises nothing *)
+Theorem not_segmenting_graph_succeeds : forall st l g,
+  wf_graph g = true -> 1 <= nv g -> length l = nv g ->
+  (forall a, In a l -> is_bool_expr_like a = true) ->
+  exists st', post_not_segmenting false st (AArr1 l) (Some g) = (st', None).
+Proof. exact NotAdjCompose.not_segmenting_graph_succeeds. Qed.
+Print Assumptions not_segmenting_graph_succeeds.
+
+Theorem not_segmenting_line_succeeds : forall st h w l,
+  h = 1 \/ w = 1 -> 1 <= h * w -> length l = h * w ->
+  exists st', post_not_segmenting false st (AArr2 h w l) None = (st', None).
+Proof. exact NotAdjCompose.not_segmenting_line_succeeds. Qed.
+Print Assumptions not_segmenting_line_succeeds.
+
 (* error points *)
 Theorem empty_grid_behaviour : forall st h w,
   h * w = 0 ->
